@@ -1,6 +1,6 @@
 """Checks of the router-client properties (C13, C14 and the router half of C17)."""
 import json, os, time, re
-import vlib, rtrgen, tunnel_check
+import vlib, rtrgen, rtrsched, tunnel_check
 
 ASSUME = {
     'C13': ['scaled real time on the in-memory socket: lower time bounds (pause, back-off window) are exact up to a 300 us clock/scheduling slack, upper bounds are not judged',
@@ -48,10 +48,23 @@ def run_model(work, pid, tier, seed):
     return st, gen, [dict(cfg='MC_Rtr', distinct_states=st, states_generated=gen, complete=bool(left) and int(left.group(1)) == 0, notes=notes)], sims
 
 
+CONF = {}
+
+
 def run_router(w, pid, tier, seed, binary):
     runs = schedules(pid, tier, seed)
-    res = tunnel_check.drive_and_judge(w, binary, runs, 'real', 'rtr', test='TestRouterSchedules', tracemod='Trace_Rtr')
-    return runs, res
+    # behaviours TLC generated from Router.tla (conformance configuration), replayed in real time: judged by the
+    # observers like every other run, and compared event by event with what the specification predicted
+    conf = rtrsched.generate(w, 'CONF_Rtr.cfg', 120 if tier == 'quick' else 1000, 100, seed + 1, 200000, 'rtlc:CONF_Rtr.cfg')
+    res = tunnel_check.drive_and_judge(w, binary, runs + conf, 'real', 'rtr', test='TestRouterSchedules', tracemod='Trace_Rtr')
+    eq, cmp_, nev, diffs = rtrsched.conformance(conf, res['trace_files'])
+    for d in diffs[:3]:
+        print('SPEC-DRIFT property=%s run=%d tick=%d predicted=%s real=%s' % (pid, d['run'], d['tick'], d['predicted'], d['real']))
+    CONF.clear()
+    CONF.update(behaviours_generated=len(conf), behaviours_compared=cmp_, real_client_matched_specification=eq, predicted_events_compared=nev,
+                not_compared='runs in which the process was held up for more than %d us (watchdog) or a step was late' % rtrsched.STALL_MAX,
+                first_differences=diffs)
+    return runs + conf, res
 
 
 def check(pid, tier):
@@ -82,11 +95,13 @@ def check(pid, tier):
         cov = dict(states=states + sims, transitions=trans, traces_validated_against_impl=res['validated'],
                    samples=[tunnel_check.sample_of(r) for r in runs[:2]], evaluations=len(runs), distinct_nontrivial=distinct,
                    rule='one evaluation = one schedule executed against the real knx.Router (scaled real time) and validated by TLC against the RouterObs observers',
-                   model_checking=mcdetail, spec_x_observer_states=sims, trace_events=res['events'], spec_drift=notes,
+                   model_checking=mcdetail, spec_x_observer_states=sims, trace_events=res['events'], spec_drift=notes, conformance=dict(CONF), tlc_generated_behaviours=CONF.get('behaviours_generated', 0),
                    known_findings={t: len(b) for t, b in kf.items()}, exhaustive=False)
         vlib.write_evidence(pid, tier, 'model_checking', cov, ASSUME[pid], time.time() - t0, len(viol))
-        print('%s %s: %d schedules on the real router client, %d trace events, model: %d states; %s' % (
-            pid, tier, len(runs), res['events'], states + sims, 'VIOLATIONS' if viol else 'held'))
+        print('%s %s: %d schedules on the real router client (%d TLC-generated), %d trace events, model: %d states; '
+              'specification conformance %d/%d behaviours; %s' % (
+                  pid, tier, len(runs), CONF.get('behaviours_generated', 0), res['events'], states + sims,
+                  CONF.get('real_client_matched_specification', 0), CONF.get('behaviours_compared', 0), 'VIOLATIONS' if viol else 'held'))
         return rc
     finally:
         w.close()
